@@ -174,6 +174,21 @@ def step (toks : List String) : Option String :=
     let s ← s.toInt?; let ellMax ← ellMax.toNat?
     let r ← genAlgOp name s ellMax (parseCx w)
     pure (showCx r)
+  | "genaddrows" :: name :: L1 :: L2 :: w => do
+    -- the GENERATED row placement of `np.add` / `np.subtract` on two Modes (Gen/AlgKern.lean): w = (L1+1)² weights of m1, then (L2+1)² of m2
+    let L1 ← L1.toNat?; let L2 ← L2.toNat?
+    let a := parseCx w
+    let n1 := (L1+1)*(L1+1)
+    let n2 := (L2+1)*(L2+1)
+    let nanF := Float.ofBits 0x7FF8000000000BAD
+    let a1 : Int → Cx Float := fun i => if i < 0 then ⟨nanF, nanF⟩ else a.getD i.toNat ⟨nanF, nanF⟩
+    let a2 : Int → Cx Float := fun i => if i < 0 then ⟨nanF, nanF⟩ else a.getD (n1 + i.toNat) ⟨nanF, nanF⟩
+    let zeros : HFMem Float := { map := ∅, dflt := 0.0 }
+    let st ← match name with
+      | "add" => some (Gen.Modes_add_rows (α := Float) a1 a2 7 0 L1 0 L2 zeros)
+      | "subtract" => some (Gen.Modes_subtract_rows (α := Float) a1 a2 7 0 L1 0 L2 zeros)
+      | _ => none
+    pure (showCx ((Array.range (max n1 n2)).map (fun (i : Nat) => frdC (α := Float) st 7 (i : Int))))
   | "genarrayop" :: name :: s :: ellMin :: n :: w => do
     let s ← s.toInt?; let ellMin ← ellMin.toInt?; let n ← n.toNat?
     let a := parseCx w
